@@ -14,11 +14,13 @@ TRUSTED = [
 ]
 
 
-def run_tx(prop, only=None):
+def run_tx(prop, only=None, tier=None):
     repo = os.environ.get("VERIF_REPO", "/repo")
     env = dict(os.environ)
     env["PYTHONPATH"] = repo + os.pathsep + ROOT
     env["PYTHONHASHSEED"] = env.get("PYTHONHASHSEED", "0")
+    if tier:
+        env["VERIF_TIER"] = tier
     cmd = ["/venv/bin/python", "-m", "tx.prop", prop]
     p = subprocess.run(cmd, capture_output=True, text=True, env=env, cwd=ROOT, timeout=3000)
     if p.returncode != 0:
@@ -27,7 +29,7 @@ def run_tx(prop, only=None):
 
 
 def run(prop, tier, rep):
-    obs, err = run_tx(prop)
+    obs, err = run_tx(prop, tier=tier)
     if obs is None:
         rep.errors.append("tx harness failed (cannot attach to the tree under test): " + err)
         return
